@@ -13,7 +13,8 @@ PROPERTY_ID = "C13"
 RULE = (
     "Hypothesis-generated charts (osu, Quaver, BMS), mapsets (StepMania, O2Jam; 1..3 charts) and plain reamber.base.MapSet "
     "containers of osu / Quaver / BMS charts, with some lists empty, "
-    "duplicated/negative/fractional offsets, via the public constructors; rates from {1/2,3/4,1,5/4,3/2,2} and floats in "
+    "duplicated/negative/fractional offsets, via the public constructors (whole-number StepMania file-level times typed "
+    "float, int or numpy int64); rates from {1/2,3/4,1,5/4,3/2,2} and floats in "
     "(0.1,10). Oracle: plain-data model (every offset and length / r, every bpm * r, everything else equal; osu preview "
     "and sample events, StepMania sample window and file offset scale), strict snapshot of the input before/after, "
     "rate(1) identity, rate(a).rate(b) == rate(a*b) (rel 1e-9). The 'write-osu' / 'write-qua' sub-checks build format-valid "
